@@ -168,6 +168,7 @@ static void api_body(const MODULE* mod) {
   /* sizing functions of the module: must be callable and large enough for the layout the transforms use */
   VF_ASSERT(bytes_of_vec_znx_dft(mod, RSZ) >= (uint64_t)RSZ * NN * DW * 8, "bytes_of_vec_znx_dft covers the dft layout");
   VF_ASSERT(bytes_of_vec_znx_big(mod, RSZ) >= (uint64_t)RSZ * NN * BW * 8, "bytes_of_vec_znx_big covers the big layout");
+  VF_ASSERT(module_get_n(mod) == NN, "module_get_n returns the ring dimension");
 #elif API == 9
   const uint64_t pw = words_of_bytes(bytes_of_vmp_pmat(mod, NROWS, NCOLS));
   uint64_t* pm = buf(pw);
